@@ -78,6 +78,27 @@ Note(k, v) ==
                                                        P("afterrule", <<L(b, "inline", n \o "lb")>>),
                                                        LB("Quote", 0, n \o "q", <<>>),
                                                        LB("Ref", 0, n \o "s", <<L(b, "inline", n \o "sb")>>)>>]
+      [] v = 11 -> [title |-> "T" \o n, blocks |-> <<P("intro", <<>>),
+                                                       LB("H", 2, n \o "a2", <<>>), P("ap", <<L(a, "inline", n \o "al")>>),
+                                                       LB("Item", 0, n \o "i1", <<>>), LB("Item", 0, n \o "i2", <<L(b, "inline", n \o "il")>>),
+                                                       LB("H", 3, n \o "b3", <<>>), P("bp", <<>>), LB("Ref", 0, n \o "r", <<L(a, "inline", n \o "ra")>>),
+                                                       LB("H", 2, n \o "c2", <<>>), LB("Code", 0, n \o "code", <<>>),
+                                                       LB("Quote", 0, n \o "q", <<>>), LB("Tbl", 0, n \o "t", <<L(b, "inline", n \o "tl")>>)>>]
+      [] v = 12 -> [title |-> "T" \o n, blocks |-> <<LB("OItem", 0, n \o "o1", <<>>), LB("OItem", 0, n \o "o2", <<L(a, "inline", n \o "ol")>>),
+                                                       LB("Sub", 0, n \o "s1", <<>>), LB("Sub", 0, n \o "s2", <<>>),
+                                                       P("mid", <<>>),
+                                                       LB("Item", 0, n \o "i1", <<>>), LB("Sub", 0, n \o "s3", <<>>), LB("Item", 0, n \o "i2", <<>>),
+                                                       LB("H", 2, n \o "h2", <<>>), LB("Ref", 0, n \o "r", <<L(b, "inline", n \o "rb")>>),
+                                                       LB("Ref", 0, n \o "m", <<L(Rel(MISSING, d), "inline", n \o "mm")>>)>>]
+      [] v = 13 -> [title |-> "", blocks |-> <<LB("Ref", 0, n \o "r", <<L(a, "inline", n \o "ra")>>), P("p", <<>>),
+                                                LB("Item", 0, n \o "i1", <<>>)>>]                 \* no title: a reference outside any section
+      [] v = 14 -> [title |-> "T" \o n, blocks |-> <<LB("H", 2, n \o "sa", <<>>), P("pa", <<>>),
+                                                       LB("H", 2, n \o "sb", <<>>), P("pb", <<L(a, "inline", n \o "lb")>>), LB("H", 3, n \o "sb3", <<>>), P("pb3", <<>>),
+                                                       LB("H", 2, n \o "sc", <<>>), LB("Ref", 0, n \o "r", <<L(b, "inline", n \o "rb")>>),
+                                                       LB("H", 2, n \o "sd", <<>>), P("pd", <<>>)>>]
+      [] v = 15 -> [title |-> "T" \o n, blocks |-> <<LB("Item", 0, n \o "i1", <<>>), LB("CodeItem", 0, n \o "ci", <<>>),
+                                                       LB("QuoteItem", 0, n \o "qi", <<>>), LB("Item", 0, n \o "i2", <<L(a, "inline", n \o "il")>>),
+                                                       P("tail", <<>>)>>]
       [] v = 9 -> [title |-> "T" \o n, blocks |-> <<LB("Ref", 0, n \o "m", <<L(Rel(MISSING, d), "inline", n \o "mm")>>),
                                                       P("x", <<X("https://example.com/" \o n, n \o "xx"), X("HTTPS://EXAMPLE.COM/" \o n, n \o "xy")>>),
                                                       P("w", <<L(a, "wiki", ""), L(b, "piped", n \o "pb")>>)>>]
@@ -106,7 +127,7 @@ Update(k, v) ==
     /\ steps' = Append(steps, [key |-> k, note |-> Note(k, v), new |-> k \notin DOMAIN docs])
     /\ UNCHANGED init
 
-GNext == (\E v1, v2, v3 \in 0..10 : Start(v1, v2, v3)) \/ (\E k \in {K1, K2, K3, K4, K5, K6}, v \in 0..10 : Update(k, v))
+GNext == (\E v1, v2, v3 \in 0..15 : Start(v1, v2, v3)) \/ (\E k \in {K1, K2, K3, K4, K5, K6}, v \in 0..15 : Update(k, v))
 GSpec == GInit /\ [][GNext]_vars
 
 Emit == Started => PrintT(<<"HIST", ToJson([init |-> init, steps |-> steps])>>)
